@@ -13,7 +13,7 @@ def consts(**over):
     return c
 
 
-INV = ["OriginsWellFormed", "ScopeIsolation", "Monotone"]
+INV = ["OriginsWellFormed", "ScopeIsolation", "Monotone", "TrustDefsAgree"]
 
 
 def run_universe(ctx, name, c, export=True, timeout=3000, module="AuthMC", invariants=INV, tag="PROG"):
